@@ -461,7 +461,7 @@ def step (s : State) : Label → Option State
       else
         let b := blk s s.cur
         if b.ret = END then
-          if s.cur + 1 = s.blocks.length then some { s with cur := s.cur + 1, pc := .ret END }
+          if s.cur + 1 = s.blocks.length then some { s with cur := s.cur + 1, seq := .blockHeader, pc := .ret END }
           else some { s with cur := s.cur + 1, seq := .blockHeader }
         else some { s with pc := .ret b.ret }
     else none
